@@ -20,12 +20,6 @@ Definition s_max : sym := 40%N.
 Definition s_ephemeral : sym := 41%N.
 Definition s_mutable : sym := 42%N.
 
-Fixpoint obj_get (l : list (sym * gval)) (k : sym) : option gval :=
-  match l with
-  | [] => None
-  | (k', v) :: l' => if N.eqb k' k then Some v else obj_get l' k
-  end.
-
 Definition f_string (o : option gval) : res sym :=
   match o with None | Some GNull => Ok s_empty | Some (GStr s) => Ok s | _ => Err EOther end.
 Definition f_pstring (o : option gval) : res (option sym) :=
